@@ -16,6 +16,7 @@ import (
 	"crypto"
 	"crypto/ecdsa"
 	"crypto/ed25519"
+	crand "crypto/rand"
 	"crypto/rsa"
 	"crypto/x509"
 	"encoding/json"
@@ -442,6 +443,15 @@ func wfMulti(m *configpb.LogMultiConfig) string {
 	return ""
 }
 
+// treeIDs lists (backend, tree id) of every log, for failing-input keys.
+func treeIDs(cs []*configpb.LogConfig) string {
+	var xs []string
+	for _, c := range cs {
+		xs = append(xs, fmt.Sprintf("(%s,%d)", c.LogBackendName, c.LogId))
+	}
+	return "[" + strings.Join(xs, " ") + "]"
+}
+
 // verdict: never a panic; accept exactly when well-formed.
 func verdict(obs, wf string) bool {
 	return obs != panicO && (obs == accept) == (wf == "")
@@ -500,9 +510,16 @@ func signedSTH(k crypto.Signer, size, ts int64, root []byte) []byte {
 	if err != nil {
 		panic(err)
 	}
-	ds, err := tls.CreateSignature(k, tls.SHA256, data)
-	if err != nil {
-		panic(err)
+	var priv crypto.PrivateKey = k
+	switch kk := k.(type) { // tls.CreateSignature takes key VALUES
+	case *ecdsa.PrivateKey:
+		priv = *kk
+	case *rsa.PrivateKey:
+		priv = *kk
+	}
+	ds, err := tls.CreateSignature(priv, tls.SHA256, data)
+	if err != nil { // key kinds CT cannot sign with (Ed25519): a well-formed signature that verifies under nothing
+		ds = tls.DigitallySigned{Algorithm: tls.SignatureAndHashAlgorithm{Hash: tls.SHA256, Signature: tls.ECDSA}, Signature: []byte{0x30, 0x06, 0x02, 0x01, 0x01, 0x02, 0x01, 0x01}}
 	}
 	b, err := tls.Marshal(ds)
 	if err != nil {
@@ -589,15 +606,21 @@ func keyOf(c *configpb.LogConfig) *keyMat {
 var mutations = []mutation{
 	{"id-zero", func(r *mrand.Rand, c *configpb.LogConfig) { c.LogId = 0 }},
 	{"id-negative", func(r *mrand.Rand, c *configpb.LogConfig) { c.LogId = -c.LogId }},
-	{"id-extreme", func(r *mrand.Rand, c *configpb.LogConfig) { c.LogId = []int64{math.MaxInt64, math.MinInt64, 1, -1}[r.Intn(4)] }},
+	{"id-extreme", func(r *mrand.Rand, c *configpb.LogConfig) {
+		c.LogId = []int64{math.MaxInt64, math.MinInt64, 1, -1}[r.Intn(4)]
+	}},
 	{"pub-absent", func(r *mrand.Rand, c *configpb.LogConfig) { c.PublicKey = nil }},
 	{"pub-empty", func(r *mrand.Rand, c *configpb.LogConfig) { c.PublicKey = &keyspb.PublicKey{} }},
-	{"pub-garbage", func(r *mrand.Rand, c *configpb.LogConfig) { c.PublicKey = &keyspb.PublicKey{Der: []byte{0x30, 0x03, 0x02, 0x01, 0x01}} }},
+	{"pub-garbage", func(r *mrand.Rand, c *configpb.LogConfig) {
+		c.PublicKey = &keyspb.PublicKey{Der: []byte{0x30, 0x03, 0x02, 0x01, 0x01}}
+	}},
 	{"pub-truncated", func(r *mrand.Rand, c *configpb.LogConfig) {
 		d := keyPool[0].pubDER
 		c.PublicKey = &keyspb.PublicKey{Der: d[:len(d)-1-r.Intn(5)]}
 	}},
-	{"pub-other-key", func(r *mrand.Rand, c *configpb.LogConfig) { c.PublicKey = &keyspb.PublicKey{Der: keyPool[r.Intn(len(keyPool))].pubDER} }},
+	{"pub-other-key", func(r *mrand.Rand, c *configpb.LogConfig) {
+		c.PublicKey = &keyspb.PublicKey{Der: keyPool[r.Intn(len(keyPool))].pubDER}
+	}},
 	{"priv-absent", func(r *mrand.Rand, c *configpb.LogConfig) { c.PrivateKey = nil }},
 	{"priv-present", func(r *mrand.Rand, c *configpb.LogConfig) { c.PrivateKey = keyPool[r.Intn(len(keyPool))].privAny }},
 	{"priv-unknown-type", func(r *mrand.Rand, c *configpb.LogConfig) {
@@ -613,15 +636,21 @@ var mutations = []mutation{
 	}},
 	{"toggle-mirror", func(r *mrand.Rand, c *configpb.LogConfig) { c.IsMirror = !c.IsMirror }},
 	{"toggle-readonly", func(r *mrand.Rand, c *configpb.LogConfig) { c.IsReadonly = !c.IsReadonly }},
-	{"reject-flags", func(r *mrand.Rand, c *configpb.LogConfig) { c.RejectExpired, c.RejectUnexpired = r.Intn(2) == 0, r.Intn(3) != 0 }},
+	{"reject-flags", func(r *mrand.Rand, c *configpb.LogConfig) {
+		c.RejectExpired, c.RejectUnexpired = r.Intn(2) == 0, r.Intn(3) != 0
+	}},
 	{"reject-both", func(r *mrand.Rand, c *configpb.LogConfig) { c.RejectExpired, c.RejectUnexpired = true, true }},
 	{"eku", func(r *mrand.Rand, c *configpb.LogConfig) {
 		c.ExtKeyUsages = [][]string{{"Any"}, {"ServerAuth", "Any", "Bogus"}, {"Any", "NoSuchUsage"}, {"Bogus", "Any"}, {"ServerAuth", "ServerAuth"},
 			{"serverauth"}, {""}, {"ServerAuth", ""}, {"Any "}, {"ExtKeyUsageServerAuth"}, {"OCSPSigning", "TimeStamping", "IPSECUser", "IPSECTunnel", "IPSECEndSystem"},
 			{"MicrosoftServerGatedCrypto", "NetscapeServerGatedCrypto", "CodeSigning", "EmailProtection", "ClientAuth"}, {"ClientAuth", "any"}, {}}[r.Intn(14)]
 	}},
-	{"start-only", func(r *mrand.Rand, c *configpb.LogConfig) { c.NotAfterStart, c.NotAfterLimit = tsPB(okTimes[r.Intn(len(okTimes))]), nil }},
-	{"limit-only", func(r *mrand.Rand, c *configpb.LogConfig) { c.NotAfterStart, c.NotAfterLimit = nil, tsPB(okTimes[r.Intn(len(okTimes))]) }},
+	{"start-only", func(r *mrand.Rand, c *configpb.LogConfig) {
+		c.NotAfterStart, c.NotAfterLimit = tsPB(okTimes[r.Intn(len(okTimes))]), nil
+	}},
+	{"limit-only", func(r *mrand.Rand, c *configpb.LogConfig) {
+		c.NotAfterStart, c.NotAfterLimit = nil, tsPB(okTimes[r.Intn(len(okTimes))])
+	}},
 	{"window-equal", func(r *mrand.Rand, c *configpb.LogConfig) {
 		t := okTimes[r.Intn(len(okTimes))]
 		c.NotAfterStart, c.NotAfterLimit = tsPB(t), tsPB(t)
@@ -632,7 +661,9 @@ var mutations = []mutation{
 		l := []absTS{{t.S - 1, t.N}, {t.S, t.N - 1}, {t.S, t.N + 1}, {t.S - 1, 999999999}, {t.S + 1, 0}}[r.Intn(5)]
 		c.NotAfterStart, c.NotAfterLimit = tsPB(t), tsPB(l)
 	}},
-	{"window-inverted", func(r *mrand.Rand, c *configpb.LogConfig) { c.NotAfterStart, c.NotAfterLimit = tsPB(okTimes[1]), tsPB(okTimes[0]) }},
+	{"window-inverted", func(r *mrand.Rand, c *configpb.LogConfig) {
+		c.NotAfterStart, c.NotAfterLimit = tsPB(okTimes[1]), tsPB(okTimes[0])
+	}},
 	{"window-random", func(r *mrand.Rand, c *configpb.LogConfig) {
 		c.NotAfterStart, c.NotAfterLimit = tsPB(okTimes[r.Intn(len(okTimes))]), tsPB(okTimes[r.Intn(len(okTimes))])
 	}},
@@ -722,7 +753,9 @@ var mutations = []mutation{
 	{"reject-extensions", func(r *mrand.Rand, c *configpb.LogConfig) {
 		c.RejectExtensions = [][]string{{"1.2.3"}, {"2.5.29.17", "1.3.6.1.4.1.11129.2.4.3"}, {"x.y"}, {""}, {"1..2"}}[r.Intn(5)]
 	}},
-	{"backend-name", func(r *mrand.Rand, c *configpb.LogConfig) { c.LogBackendName = []string{"", "be0", "be1", "nope", "be0 "}[r.Intn(5)] }},
+	{"backend-name", func(r *mrand.Rand, c *configpb.LogConfig) {
+		c.LogBackendName = []string{"", "be0", "be1", "nope", "be0 "}[r.Intn(5)]
+	}},
 }
 
 // genConfig: a base configuration with 0..3 mutations (quota 1/4 pristine).
@@ -796,7 +829,10 @@ func (s *storageScript) GetMirrorSTH(_ context.Context, max int64) (*ct.SignedTr
 	return nil, errors.New("storage unavailable")
 }
 
-type setupEnv struct{ rootsOK, signerOK, keyMatch, oidsOK bool }
+type setupEnv struct {
+	rootsOK, signerOK, keyMatch, oidsOK bool
+	signOK                              bool // the signer can sign a SHA-256 digest (Ed25519 keys load but cannot)
+}
 
 func (e setupEnv) coq() string {
 	return fmt.Sprintf("(Build_setup_env %s %s %s %s)", lib.Bool(e.rootsOK), lib.Bool(e.signerOK), lib.Bool(e.keyMatch), lib.Bool(e.oidsOK))
@@ -826,6 +862,9 @@ func envOf(c *configpb.LogConfig) setupEnv {
 		if m, err := c.PrivateKey.UnmarshalNew(); err == nil {
 			if s, err := keys.NewSigner(context.Background(), m); err == nil {
 				e.signerOK = true
+				digest := make([]byte, 32)
+				sig, serr := s.Sign(crand.Reader, digest, crypto.SHA256)
+				e.signOK = serr == nil && len(sig) > 0
 				if c.PublicKey != nil {
 					if pk, err := ctx509.ParsePKIXPublicKey(c.PublicKey.Der); err == nil {
 						switch p := pk.(type) {
@@ -897,6 +936,9 @@ type backendScript struct {
 	kind string // root | rpc-error | no-root | bad-hash | garbage
 	size uint64
 	ns   uint64
+	// fixed storage script for this probe (empty policy: drawn at random)
+	policy string
+	sths   [][2]int64
 }
 
 func (b backendScript) coq() string {
@@ -980,7 +1022,11 @@ func instanceCases(r *mrand.Rand, w *lib.Writer, c *configpb.LogConfig, vc *ctfe
 		{kind: "root", size: 25, ns: 1234567890123}, {kind: "root", size: 0, ns: 0}, {kind: "rpc-error"},
 		{kind: []string{"no-root", "bad-hash", "garbage"}[r.Intn(3)]}}
 	if c.IsMirror {
-		scripts = append(scripts, backendScript{kind: "root", size: 1<<63 + 5, ns: 1}, backendScript{kind: "root", size: math.MaxInt64, ns: 1})
+		// the boundary of "not larger than the backend tree": STHs at size-1, size, size+1 with an honest storage
+		scripts = append(scripts, backendScript{kind: "root", size: 1<<63 + 5, ns: 1}, backendScript{kind: "root", size: math.MaxInt64, ns: 1},
+			backendScript{kind: "root", size: 25, ns: 1, policy: "PHonest", sths: [][2]int64{{24, 1}, {25, 2}, {26, 3}}},
+			backendScript{kind: "root", size: 25, ns: 1, policy: "PHonest", sths: [][2]int64{{26, 7}}},
+			backendScript{kind: "root", size: 0, ns: 1, policy: "PHonest", sths: [][2]int64{{1, 7}, {0, 8}}})
 	}
 	sthSets := [][][2]int64{{{10, 1}, {20, 2}, {30, 3}}, {{25, 7}}, {{26, 7}}, {}, {{1000, 5}, {999, 6}, {0, 9}}}
 	policies := []string{"PHonest", "PHonest", "PHonest", "PIgnoreMax", "PNil", "PErr"}
@@ -988,6 +1034,9 @@ func instanceCases(r *mrand.Rand, w *lib.Writer, c *configpb.LogConfig, vc *ctfe
 		be.Reset()
 		be.GetLatestSignedLogRootFn = b.fn()
 		st.policy, st.sths, st.args = policies[r.Intn(len(policies))], sthSets[r.Intn(len(sthSets))], nil
+		if b.policy != "" {
+			st.policy, st.sths = b.policy, b.sths
+		}
 		o := getSTH(inst, c.Prefix)
 		calls := len(be.Reset())
 		arg := "None"
@@ -1021,10 +1070,13 @@ func instanceCases(r *mrand.Rand, w *lib.Writer, c *configpb.LogConfig, vc *ctfe
 			if o.class == "ok" {
 				propOK = b.kind == "root" && o.size == b.size
 			}
+			if !env.signOK {
+				class = "log-cannot-sign"
+			}
 			note = fmt.Sprintf("log served class=%s size=%d with backend %s size=%d", o.class, o.size, b.kind, b.size)
 		}
 		w.Add(lib.Case{
-			Coq: fmt.Sprintf("CGetSth %s %s %s %s %s true %s %s %s", a.coq(), env.coq(), b.coq(), st.policy, lib.List(sths), o.coq(), lib.Z(int64(calls)), arg),
+			Coq: fmt.Sprintf("CGetSth %s %s %s %s %s %s %s %s %s", a.coq(), env.coq(), b.coq(), st.policy, lib.List(sths), lib.Bool(env.signOK), o.coq(), lib.Z(int64(calls)), arg),
 			Input: map[string]interface{}{"kind": "get-sth", "config": protoJSON(c), "backend": b.kind, "backend_size": b.size,
 				"storage": st.policy, "storage_sths": st.sths},
 			Impl:   map[string]interface{}{"class": o.class, "tree_size": o.size, "timestamp": o.ts, "backend_calls": calls, "storage_args": st.args},
@@ -1179,8 +1231,8 @@ func main() {
 			tg = append(tg, "conn:tested")
 		}
 		w.Add(lib.Case{Coq: fmt.Sprintf("CValidate %s %s %s %s", a.coq(), my, pg, obs),
-			Input: map[string]interface{}{"kind": "ValidateLogConfig", "config": protoJSON(c)},
-			Impl:  map[string]interface{}{"outcome": obs, "wellformed": wf == "", "violated_clause": wf},
+			Input:  map[string]interface{}{"kind": "ValidateLogConfig", "config": protoJSON(c)},
+			Impl:   map[string]interface{}{"outcome": obs, "wellformed": wf == "", "violated_clause": wf},
 			PropOK: verdict(obs, wf),
 			Note:   fmt.Sprintf("ValidateLogConfig outcome=%s clause=%q conn=%q backend=%d ekus=%q", obs, wf, c.CtfeStorageConnectionString, a.SB, c.ExtKeyUsages),
 			Tags:   tg})
@@ -1204,7 +1256,7 @@ func main() {
 			Input:  map[string]interface{}{"kind": "ValidateLogMultiConfig", "config": protoJSON(m)},
 			Impl:   map[string]interface{}{"outcome": obs, "wellformed": wf == "", "violated_clause": wf},
 			PropOK: verdict(obs, wf),
-			Note:   fmt.Sprintf("ValidateLogMultiConfig outcome=%s clause=%q backends_present=%v log_configs_present=%v", obs, wf, m.Backends != nil, m.LogConfigs != nil),
+			Note:   fmt.Sprintf("ValidateLogMultiConfig outcome=%s clause=%q backends_present=%v log_configs_present=%v tree_ids=%s", obs, wf, m.Backends != nil, m.LogConfigs != nil, treeIDs(cs)),
 			Tags:   append([]string{"multi:" + obs, "multi-wf:" + map[bool]string{true: "yes", false: wf}[wf == ""]}, tags...)})
 	}
 	backends := func(s *configpb.LogBackendSet, tag string) {
@@ -1358,7 +1410,7 @@ func main() {
 				Input:  map[string]interface{}{"kind": "MultiLogConfigFromFile", "form": form, "config": protoJSON(m)},
 				Impl:   map[string]interface{}{"load": load, "validate": obs, "round_trip": roundTrip},
 				PropOK: roundTrip && verdict(obs, wf),
-				Note:   fmt.Sprintf("MultiLogConfigFromFile form=%s load=%s validate=%s clause=%q round_trip=%v", form, load, obs, wf, roundTrip),
+				Note:   fmt.Sprintf("MultiLogConfigFromFile form=%s load=%s validate=%s clause=%q round_trip=%v tree_ids=%s", form, load, obs, wf, roundTrip, treeIDs(cs)),
 				Tags:   append([]string{"file:multi:" + form, "file:multi:" + obs, btag}, tags...)})
 		}
 	}
